@@ -148,6 +148,9 @@ class World(object):
         except RecursionError:
             self.recording = False
             return ['SOut %d OCrash' % (self.cur or 0)]
+        except Exception as e:      # judged by the monitor: nothing may escape from these entry points
+            self.recording = False
+            return self._render_outs() + ['SRaise (* %s escaped from %s *)' % (type(e).__name__, kind)]
         raise ValueError('unknown operation %r' % (op,))
 
     def _render_outs(self):
@@ -303,6 +306,8 @@ def monitor(start, ops, trace, envelopes):
                                               'received a header announcing more payload than it ever gets'
                                               % (i, len(ibuf), pre[i][0], pre[i][2]))
         for o in outs:
+            if o.startswith('SRaise (*') and 'escaped from' in o:
+                return dict(where, broken='an exception left the listener code and would reach the main loop: ' + o[10:-3])
             if o.startswith('SRaise (* bytes of listener'):
                 return dict(where, broken='output of one listener reached the state machine of another: ' + o[10:-3] +
                                           ' (a stale dispatcher is registered for a descriptor number that was reused)')
